@@ -1864,6 +1864,21 @@ Proof.
   - rewrite FetchNotes_commit_after_fetch_eq. now apply After.
 Qed.
 
+(* ------------------------------------------------------------------ a fetch / pull returns synced *)
+Lemma PullNotes_eq : forall e c, PullNotes e c = FetchNotes c.
+Proof. intros [| |] c; reflexivity. Qed.
+
+Lemma fetch_returns_synced : forall n pre c, c < n ->
+  sub_keys (remote_map (run (init n) pre)) (local_map (run (init n) (pre ++ FetchNotes c)) c).
+Proof.
+  intros n pre c Hc. rewrite run_app. fold (S0 n pre).
+  apply fetch_block; [apply wf_S0|now rewrite len_S0].
+Qed.
+
+Lemma pull_returns_synced : forall n pre e c, c < n ->
+  sub_keys (remote_map (run (init n) pre)) (local_map (run (init n) (pre ++ PullNotes e c)) c).
+Proof. intros. rewrite PullNotes_eq. now apply fetch_returns_synced. Qed.
+
 (* ------------------------------------------------------------------ packaged statements *)
 Lemma no_loss : forall (n : nat) (sched : list step),
   (forall o k v, In o (holders (run (init n) sched)) ->
